@@ -76,7 +76,7 @@ def jobs(tier, seed):
     for L in range(0, 520): J(P=1, C=0, S=1, F=1, order=L % 3, pad=L)
     # POINT:SCALE set by the user to any float (it is content like any other parameter)
     for order in (0, 1, 2): J(P=2, C=1, S=1, F=1, order=order, point_scale=1)
-    # construction histories: every history of 2 operations (56-operation alphabet of the history harness) from the declared and
+    # construction histories: every history of 2 operations (58-operation alphabet of the history harness) from the declared and
     # the populated start state, then save -> load -> full comparison
     from . import histcommon
     # (start states that declare a channel: for objects without channels the sub-frame count of a built object (0) and of a loaded one (the
@@ -91,7 +91,8 @@ def jobs(tier, seed):
     if tier == 'thorough':
         J(P=2, C=2, S=2, F=2, order=1, symnames=1); J(P=3, C=1, S=1, F=2, order=2, symnames=1)
     # the longest single configurations first (a long free name placed in POINT, free point/channel names): they then overlap with the many short ones
-    out.sort(key=lambda j: 0 if (j.get('cfg', {}).get('symnames') or (j.get('cfg', {}).get('ex_group') == 1 and j.get('cfg', {}).get('ex_nlen', 0) >= 4)) else 1)
+    for j in out:
+        if j.get('cfg', {}).get('symnames') or (j.get('cfg', {}).get('ex_group') == 1 and j.get('cfg', {}).get('ex_nlen', 0) >= 4): j['first'] = 1      # (the runner starts these first)
     return out
 
 UPPER = ('grp.name', 'prm.name')
